@@ -3,14 +3,14 @@ independent Python reference of the documented SMTP server behaviour (DESIGN app
 import os, re, shutil, subprocess
 import vlib
 
-DOMS = [b"ok.dom", b"sub.ok.dom", b"wild.dom", b"x.wild.dom", b"more.dom", b"other.dom", b"OK.DOM", b"z.more.dom", b"okxdom", b"notok.dom"]
+DOMS = [b"ok.dom", b"sub.ok.dom", b"wild.dom", b"x.wild.dom", b"more.dom", b"other.dom", b"OK.DOM", b"z.more.dom", b"okxdom", b"notok.dom", b"jazz.dom", b"JAZZ.dom", b"a.zz.dom"]
 USERS = [b"joe", b"Ann", b"a b", b"x+y", b"o'k", b"joe@home", b"spam"]
 
 def gen_cfg(rng):
     c = {}
-    c["rcpthosts"] = None if rng.random() < 0.15 else [rng.choice([b"ok.dom", b".wild.dom", b"Ok.Dom", b"other.dom", b"localhost"]) for _ in range(rng.randint(0, 3))]
+    c["rcpthosts"] = None if rng.random() < 0.15 else [rng.choice([b"ok.dom", b".wild.dom", b"Ok.Dom", b"other.dom", b"localhost", b"JaZZ.dom", b".ZZ.dom"]) for _ in range(rng.randint(0, 3))]
     c["morercpthosts"] = [] if c["rcpthosts"] is None or rng.random() < 0.6 else [rng.choice([b"more.dom", b".more.dom"])]
-    c["badmailfrom"] = None if rng.random() < 0.5 else [rng.choice([b"spam@bad.dom", b"@bad.dom", b"Joe@Ok.Dom", b"@", b"nodomain"]) for _ in range(rng.randint(1, 2))]
+    c["badmailfrom"] = None if rng.random() < 0.5 else [rng.choice([b"spam@bad.dom", b"@bad.dom", b"Joe@Ok.Dom", b"@", b"nodomain", b"@JAZZ.dom", b"Joe@a.ZZ.dom"]) for _ in range(rng.randint(1, 2))]
     c["localiphost"] = rng.choice([None, b"lip.host"])
     c["databytes"] = rng.choice([0, 0, 10, 50, 200])
     c["relayclient"] = rng.choice([None, None, None, b"", b"@relay.hack"])
